@@ -575,6 +575,8 @@ class Folder:
                     val = self.expr(v.value)
                     if isinstance(val, (Opaque, Rec)):
                         raise Undecidable("f-string of opaque")
+                    if v.conversion in (114, 115, 97):                      # !r / !s / !a
+                        val = {114: repr, 115: str, 97: ascii}[v.conversion](val)
                     out += format(val, self.expr(v.format_spec) if v.format_spec else "")
             return out
         if isinstance(e, ast.Call):
